@@ -28,7 +28,7 @@ def run(ctx):
     ctx.extra['rule'] = ('markers rich in extras (2-6 atoms, several extras on one path, both operators, normalised and unnormalised spellings, '
                          'invalid names) and random markers; simplify_extras(E) for random E: extracted m_simplify_extras on the dump vs the crate; '
                          'result must not mention E and must evaluate on S as the original on S u E (grid environments, all S subsets sampled); '
-                         'with_extra_marker vs m_with_extra; extra == / != evaluation; non-trivial = distinct (diagram, E) with E hitting the diagram')
+                         'with_extra_marker vs m_with_extra; extra == / != evaluation; top_level_extra(): when it returns extra == e, the proved conjunction of the dump with extra != e must be unsatisfiable (exact region search); non-trivial = distinct (diagram, E) with E hitting the diagram')
     for rd in range(2 if quick else 8):
         sess = markers.Session(h)
         keys = markers.Keys(sess.p)
@@ -134,6 +134,41 @@ def run(ctx):
                 ctx.oracle_cases += 1
                 if (r1[1] == 'T') != want or (r2[1] == 'T') != (not want):
                     ctx.failure('extra == %r with active %r evaluates to %s / != to %s' % (name, active, r1[1], r2[1]), {'name': name, 'active': active})
+        # top_level_extra(): `extra == e` only if e is active in every satisfying assignment, i.e. marker AND extra != e is unsatisfiable
+        cmds, meta = [], []
+        for a in regs:
+            r = sess.ask(['tlextra', str(a)])
+            ctx.oracle_cases += 1
+            if r[0] != 'ok':
+                ctx.failure('top_level_extra panicked', {'marker': markers.describe(sess, a)})
+                continue
+            ctx.count('tlextra:' + ('none' if r[1] == 'none' else 'some'))
+            if r[1] == 'none':
+                continue
+            ex = r[1]
+            try:
+                ma = sess.model(a)
+            except Exception:
+                continue
+            if ex[0] != 'extra' or ex[1] != 'eq':
+                ctx.failure('top_level_extra returned something other than `extra == e`: %s' % dump(ex)[:100], {'marker': markers.describe(sess, a)})
+                continue
+            arb = '1' if ex[2][0] == 'arb' else '0'
+            name = ex[2][1]
+            neq = ['B', ['ex', arb, name], 'F', 'T']
+            cmds.append(['and', ma, neq])
+            meta.append((a, name))
+        outs = fw.batch_parallel(build.DRIVER, cmds)
+        for (a, name), conj in zip(meta, outs):
+            ctx.corr_cases += 1
+            try:
+                d = semantics.differ(conj, 'F', dense=False)
+            except semantics.Unsupported:
+                continue
+            if d is not None:
+                eo = semantics.env_of_path(keys, d, markers.DEFAULT_ENV)
+                ctx.failure('top_level_extra() returned extra == %r, but the marker holds in an assignment where that extra is not active' % unS(name),
+                            {'marker': markers.describe(sess, a), 'extra': unS(name), 'assignment': str(eo)})
         c02.monitor(ctx, sess, list(sess.models.keys()))
         sess.close()
     if not ctx.samples:
